@@ -100,6 +100,16 @@ class World:
         return label
 
 
+def _reaches(world, start, goal):
+    seen = 0
+    while world.kind[start] == "link" and seen <= len(world.nodes):
+        start = world.target[start]
+        seen += 1
+        if start == goal:
+            return True
+    return False
+
+
 def check_table(world, ctx):
     for label, node in enumerate(world.nodes):
         store = world.store[world.resolve(label)]
@@ -221,6 +231,17 @@ def check_case(case, acc):
             world.store[world.resolve(tlabel)].update(kwargs)
             if world.kind[tlabel] == "link":
                 link_to_link = True
+        elif kind == "retarget":
+            # a link whose `target` is COMPUTED (a property over state of its own) starts to point at another node without any
+            # assignment to `link.target`: from then on reads and writes go to the new target
+            if n == 0:
+                continue
+            label = step[1] % n
+            new_target = step[2] % n
+            node = world.nodes[label]
+            if type(node) is nodes.PropLink and new_target != label and world.resolve(new_target) != label and not (world.kind[new_target] == "link" and _reaches(world, new_target, label)):
+                object.__setattr__(node, "_ref", world.nodes[new_target])
+                world.target[label] = new_target
         elif kind == "set_api":
             if n == 0:
                 continue
@@ -279,6 +300,7 @@ def random_cases(draw):
         st.tuples(st.just("new_link"), st.sampled_from(["SymlinkNode"] + nodes.LINK_KINDS), IDX, ATTRS).map(list),
         st.tuples(st.just("set"), IDX, st.sampled_from(NAMES), VALUE).map(list),
         st.tuples(st.just("set"), IDX, st.sampled_from(NAMES), VALUE).map(list),
+        st.tuples(st.just("retarget"), IDX, IDX).map(list),
         st.tuples(st.just("set_api"), IDX, st.just("separator"), st.sampled_from(["|", "::", "/"])).map(list),
         st.tuples(st.just("set_api"), IDX, st.just("icon"), VALUE).map(list),
         st.tuples(st.just("set_api"), IDX, st.just("title"), VALUE).map(list),
@@ -304,6 +326,9 @@ def _systematic_cases(index, count):
                         for c in range(chain):
                             steps.append(["new_link", linkcls if c % 2 == 0 else "SymlinkNode", 0 if c == 0 else 1 + c, ctor_kw if c == chain - 1 else []])
                         steps.append(["set", 0 if write_at == 0 else 1 + write_at, "foo", 5])
+                        steps.append(["retarget", 2, 1])
+                        steps.append(["set", 2, "x", 9])
+                        steps.append(["retarget", 2, 0])
                         steps.append(["parent", 2, 1])
                         steps.append(["set", 1 + chain, "bar", "w w"])
                         steps.append(["children", 0, [1 + chain]])
